@@ -1,4 +1,5 @@
 import RsslVerif.Lemmas.CondChain
+import RsslVerif.Lemmas.CondParse
 /-!
 # C11 — conditional compilation selects exactly the branches C semantics select
 
@@ -12,7 +13,7 @@ All statements hold for every tree / line list / expression (no bound on length 
 -/
 namespace RsslVerif.Thm.C11
 open RsslVerif.Gen.CondTables RsslVerif.Model.CondExpr RsslVerif.Model.CondChain
-open RsslVerif.Spec.CPre RsslVerif.Lemmas.CondChain RsslVerif.Lemmas.CondExpr
+open RsslVerif.Spec.CPre RsslVerif.Lemmas.CondChain RsslVerif.Lemmas.CondExpr RsslVerif.Lemmas.CondParse
 
 /-! ## 1. the extracted tables are the specified ones -/
 
@@ -223,6 +224,98 @@ theorem cond_parse_eval (σ : Env) (e : Expr) (hwf : e.WellFormedIn σ) :
 theorem cond_parse_eval_closed (e : Expr) (hc : Closed e) :
     parseCond (print 4 e) = some (evalU64 [] e != 0) := by
   rw [parseCond_print e hc, truthy_eq]
+
+/-! ### 4b. the token level: the parser accepts exactly the grammar, and the parse is the unique tree -/
+
+/-- **Main theorem (token level, completeness + soundness).**  For *every* token sequence `ts` (not only
+    printed trees): the model of `condition_parser::parse` accepts `ts` with truth value `b` iff `ts` is the
+    printing of a canonical syntax tree `e` (explicit parentheses as `.paren` nodes, every operand at the
+    level the C grammar gives it, so `print` adds no parentheses of its own) whose reference value over
+    unsigned 64-bit integers has truth `b`.  `parseTree ts` — the model parser with syntax trees in place of
+    values (`Lemmas.CondParse.sim`: the model parser *is* `parseTree` followed by `evalU64`) — returns that
+    tree. -/
+theorem cond_parse_tokens (ts : List CTok) (b : Bool) :
+    parseCond ts = some b ↔ ∃ e, Canon e ∧ print 4 e = ts ∧ parseTree ts = some e ∧ b = (evalU64 [] e != 0) := by
+  rw [parseCond_parseTree]
+  constructor
+  · intro h
+    cases ht : parseTree ts with
+    | none => simp [ht] at h
+    | some e =>
+      simp only [ht, Option.map_some, Option.some.injEq] at h
+      obtain ⟨h1, h2⟩ := parseTree_spec ts e ht
+      exact ⟨e, h1, h2, rfl, by rw [← h, truthy_eq]⟩
+  · rintro ⟨e, _, _, h3, rfl⟩
+    simp [h3, truthy_eq]
+
+/-- **Unambiguity.**  The tree is unique: two canonical trees with the same printing are equal; two
+    arbitrary `defined`-free trees with the same printing differ only in redundant parentheses (they have
+    the same canonical form, `canon` = make the parentheses `print` adds explicit) and have the same value.
+    Together with `cond_parse_tokens`: the parse of an accepted token sequence is *the* tree whose printing
+    is that sequence, modulo redundant parentheses. -/
+theorem cond_parse_unambiguous :
+    (∀ e₁ e₂, Canon e₁ → Canon e₂ → print 4 e₁ = print 4 e₂ → e₁ = e₂) ∧
+    (∀ e₁ e₂, Closed e₁ → Closed e₂ → print 4 e₁ = print 4 e₂ →
+      canon e₁ = canon e₂ ∧ evalU64 [] e₁ = evalU64 [] e₂) ∧
+    (∀ e, Closed e → Canon (canon e) ∧ print 4 (canon e) = print 4 e ∧ evalU64 [] (canon e) = evalU64 [] e) := by
+  have key : ∀ e₁ e₂, Canon e₁ → Canon e₂ → print 4 e₁ = print 4 e₂ → e₁ = e₂ := by
+    intro e₁ e₂ h1 h2 hp
+    have a := parseTree_print e₁ h1
+    have b := parseTree_print e₂ h2
+    rw [hp, b] at a
+    exact (Option.some.inj a).symm
+  refine ⟨key, ?_, fun e hc => ⟨canon_canon e hc, print_canon e 4, ev_canon e⟩⟩
+  intro e₁ e₂ h1 h2 hp
+  have hc : canon e₁ = canon e₂ :=
+    key _ _ (canon_canon e₁ h1) (canon_canon e₂ h2) (by rw [print_canon, print_canon, hp])
+  refine ⟨hc, ?_⟩
+  have a := ev_canon e₁
+  have b := ev_canon e₂
+  simp only [ev] at a b
+  rw [← a, ← b, hc]
+
+/-- **Ill-formed token sequences are rejected**, well-formed ones accepted: with `Gram` the C grammar of
+    conditions over the supported operators on tokens (`Spec.CPre.Gram`: literals, `true/false`,
+    identifiers, `!`, parentheses, four left-associative binary levels), the model parser accepts `ts`
+    iff `Gram 4 ts`. -/
+theorem cond_rejects_illformed (ts : List CTok) :
+    (¬ Gram 4 ts → parseCond ts = none) ∧ (Gram 4 ts → ∃ b, parseCond ts = some b) := by
+  rw [parseCond_parseTree, gram_iff_accepts]
+  constructor
+  · intro h
+    cases ht : parseTree ts with
+    | none => rfl
+    | some e => exact absurd ⟨e, ht⟩ h
+  · rintro ⟨e, he⟩
+    exact ⟨truthy (ev e), by simp [he]⟩
+
+/-- Non-vacuity: `1 < 2 == ( 3 || 0 ) && ! x` is in the grammar and parses to the expected tree;
+    `1 < = 2` (separate `<` and `=`), `1 ||`, `( 1` and `1 2` are not in the grammar and are rejected. -/
+example :
+    Gram 4 [.LiteralInt 1, .LeftAngleBracket .Whitespace, .LiteralInt 2, .EqualsEquals,
+      .LeftParen, .LiteralInt 3, .VerticalBarVerticalBar, .LiteralInt 0, .RightParen,
+      .AmpersandAmpersand, .ExclamationPoint, .Id "x"] ∧
+    parseTree [.LiteralInt 1, .LeftAngleBracket .Whitespace, .LiteralInt 2, .EqualsEquals,
+      .LeftParen, .LiteralInt 3, .VerticalBarVerticalBar, .LiteralInt 0, .RightParen,
+      .AmpersandAmpersand, .ExclamationPoint, .Id "x"] = some (.bin .land
+      (.bin .eq (.bin (.lt .Whitespace) (.lit 1 false) (.lit 2 false))
+                (.paren (.bin .lor (.lit 3 false) (.lit 0 false))))
+      (.not (.name "x"))) ∧
+    parseCond [.LiteralInt 1, .LeftAngleBracket .Whitespace, .LiteralInt 2, .EqualsEquals,
+      .LeftParen, .LiteralInt 3, .VerticalBarVerticalBar, .LiteralInt 0, .RightParen,
+      .AmpersandAmpersand, .ExclamationPoint, .Id "x"] = some true ∧
+    ¬ Gram 4 [.LiteralInt 1, .LeftAngleBracket .Whitespace, .Equals, .LiteralInt 2] ∧
+    ¬ Gram 4 [.LiteralInt 1, .VerticalBarVerticalBar] ∧
+    ¬ Gram 4 [.LeftParen, .LiteralInt 1] ∧
+    ¬ Gram 4 [.LiteralInt 1, .LiteralInt 2] := by
+  have hp : parseTree [.LiteralInt 1, .LeftAngleBracket .Whitespace, .LiteralInt 2, .EqualsEquals,
+      .LeftParen, .LiteralInt 3, .VerticalBarVerticalBar, .LiteralInt 0, .RightParen,
+      .AmpersandAmpersand, .ExclamationPoint, .Id "x"] = some (.bin .land
+      (.bin .eq (.bin (.lt .Whitespace) (.lit 1 false) (.lit 2 false))
+                (.paren (.bin .lor (.lit 3 false) (.lit 0 false))))
+      (.not (.name "x"))) := by decide
+  exact ⟨(gram_iff_accepts _).2 ⟨_, hp⟩, hp, by decide, not_gram_of_none _ (by decide),
+    not_gram_of_none _ (by decide), not_gram_of_none _ (by decide), not_gram_of_none _ (by decide)⟩
 
 /-- Non-vacuity: a depth-5 condition mixing all four binary levels, both associativity-sensitive shapes
     (`a - (b - c)`-like right nesting that needs parentheses, left nesting that does not), `!`, `defined`
